@@ -53,7 +53,7 @@ def make_token(rng, cfg, tid):
     if k == "fixed":
         t.value = bytes(rng.getrandbits(8) for _ in range(kind_of(t)["n"]))
     elif k == "counted":
-        t.value = bytes(rng.getrandbits(8) for _ in range(rng.choice([1, 2, 4, 4, 9, 130])))
+        t.value = bytes(rng.getrandbits(8) for _ in range(rng.choice([0, 1, 2, 4, 4, 9, 130])))
     elif k == "attrs_counted":
         attrs = []
         for a in t.attributes:
@@ -62,7 +62,7 @@ def make_token(rng, cfg, tid):
             ac.value = u32()
             attrs.append(ac)
         t.attributes = attrs
-        t.value = bytes(rng.getrandbits(8) for _ in range(rng.choice([1, 3, 5])))
+        t.value = bytes(rng.getrandbits(8) for _ in range(rng.choice([0, 1, 3, 5])))
     elif k == "none":
         t.value = b"" if t.token_type.name == "OPAQUE_I" else None
     elif k == "uint8":
@@ -110,7 +110,7 @@ def run(ctx):
     ctx.assumptions += [
         "implemented token = global type with both a read and a write branch (OPAQUE_I fixed / counted / with attributes, INFO_TIME, UINT8, NO_VALUE, U/SFLOATVAR, UINTVAR, CIRCLE_2D, POINT_2D, POINT_3D)",
         "canonical form = shortest uintvars, one-septet fractions; documents with a constants table carry it inline or inherit it (CDT length octet 0x01); the default table cannot be expressed on the wire and is outside",
-        "a counted opaque value of a token with attributes is non-empty (an empty one is written without its length octet)",
+        "counted opaque values may be empty (count 0)",
     ]
     core.setup_repo_path()
     import random
